@@ -13,8 +13,11 @@ package engine
 import (
 	"crypto/sha256"
 	"encoding/binary"
+	"bytes"
 	"encoding/json"
 	"fmt"
+	"os"
+	"os/exec"
 	"sort"
 	"strings"
 	"time"
@@ -219,6 +222,130 @@ type Scenario struct {
 	// Check returns an observation string (hashed for the distinct-outcome count),
 	// whether the execution was non-trivial (threads really interacted), and findings.
 	Check func(x *vrt.Exec) (obs string, nontrivial bool, findings []*Finding)
+	// Fresh: every execution runs in a process of its own, so that package-level state of the
+	// code under test (lazily initialised tables, caches keyed by secrets, ...) is as it is right
+	// after program start in every execution. The scenario must be registered in FreshRegistry
+	// under its name so that the child process can find it.
+	Fresh bool
+}
+
+// FreshRegistry: constructors of the scenarios that run with Fresh, by name.
+var FreshRegistry = map[string]func() *Scenario{}
+
+// Run is the outcome of one execution (wherever it ran).
+type Run struct {
+	Points     []vrt.Point `json:"points"`
+	Steps      int         `json:"steps"`
+	Diverged   string      `json:"diverged,omitempty"`
+	RaceNames  []string    `json:"race_names,omitempty"`
+	Obs        string      `json:"obs"`
+	NonTrivial bool        `json:"nontrivial"`
+	Findings   []*Finding  `json:"findings,omitempty"`
+	Trace      []string    `json:"trace,omitempty"`
+}
+
+func (r *Run) Choices() []int {
+	out := make([]int, len(r.Points))
+	for i, p := range r.Points {
+		out[i] = p.Chosen
+	}
+	return out
+}
+
+func (r *Run) Fingerprints() []uint32 {
+	out := make([]uint32, len(r.Points))
+	for i, p := range r.Points {
+		out[i] = p.FP
+	}
+	return out
+}
+
+// FreshRequest is what a child process is asked to execute.
+type FreshRequest struct {
+	Unit    string   `json:"unit"`
+	Choices []int    `json:"choices"`
+	FPs     []uint32 `json:"fps"`
+	Trace   bool     `json:"trace"`
+	YieldAt []string `json:"yield_at,omitempty"`
+	Policy  int      `json:"policy"`
+}
+
+// Execute runs sc once under the given prefix — here, or in a child process if sc.Fresh — and
+// evaluates its oracle.
+func Execute(sc *Scenario, choices []int, fps []uint32, trace bool) *Run {
+	if sc.Fresh && os.Getenv("VERIF_FRESH_CHILD") == "" {
+		return executeFresh(sc, choices, fps, trace)
+	}
+	x := RunOnceFP(sc, choices, fps, trace)
+	r := &Run{Points: x.Points, Steps: x.Steps, Diverged: x.Diverged}
+	seen := map[string]bool{}
+	for _, rc := range x.Races {
+		for _, n := range rc.Names {
+			if !seen[n] {
+				seen[n] = true
+				r.RaceNames = append(r.RaceNames, n)
+			}
+		}
+	}
+	r.Findings = StandardFindings(sc, x)
+	if x.Diverged == "" {
+		var more []*Finding
+		r.Obs, r.NonTrivial, more = sc.Check(x)
+		r.Findings = append(r.Findings, more...)
+	}
+	if trace {
+		r.Trace = x.DumpSchedule()
+		if len(r.Trace) > 400 {
+			r.Trace = r.Trace[:400]
+		}
+	}
+	return r
+}
+
+func executeFresh(sc *Scenario, choices []int, fps []uint32, trace bool) *Run {
+	base := sc.Name
+	for _, suf := range []string{"#race", "#rev"} {
+		base = strings.TrimSuffix(base, suf)
+	}
+	req := FreshRequest{Unit: base, Choices: choices, FPs: fps, Trace: trace, YieldAt: yieldNames(sc), Policy: sc.Opt.Policy}
+	in, _ := json.Marshal(req)
+	cmd := exec.Command(os.Args[0], "-fresh-exec")
+	cmd.Env = append(os.Environ(), "VERIF_FRESH_CHILD=1")
+	cmd.Stdin = bytes.NewReader(in)
+	out, err := cmd.Output()
+	r := &Run{}
+	if err != nil {
+		r.Diverged = "child process failed: " + err.Error()
+		return r
+	}
+	if err := json.Unmarshal(out, r); err != nil {
+		r.Diverged = "child process output unreadable: " + err.Error()
+	}
+	return r
+}
+
+// FreshChild is the main of a child process: one execution of the requested scenario.
+func FreshChild() {
+	var req FreshRequest
+	if err := json.NewDecoder(os.Stdin).Decode(&req); err != nil {
+		fmt.Fprintln(os.Stderr, "BROKEN:", err)
+		os.Exit(2)
+	}
+	mk := FreshRegistry[req.Unit]
+	if mk == nil {
+		fmt.Fprintln(os.Stderr, "BROKEN: unknown fresh scenario", req.Unit)
+		os.Exit(2)
+	}
+	sc := mk()
+	sc.Opt.Policy = req.Policy
+	if len(req.YieldAt) > 0 {
+		sc.Opt.YieldAt = map[string]bool{}
+		for _, n := range req.YieldAt {
+			sc.Opt.YieldAt[n] = true
+		}
+	}
+	r := Execute(sc, req.Choices, req.FPs, req.Trace)
+	json.NewEncoder(os.Stdout).Encode(r)
 }
 
 type SConfig struct {
@@ -345,17 +472,17 @@ func exploreS1(ctx *Ctx, sc *Scenario, cfg SConfig) []string {
 	stop := false
 	var execs int64
 
-	runOne := func(b branch, mine bool) *vrt.Exec {
+	runOne := func(b branch, mine bool) *Run {
 		prefix := b.choices
-		x := RunOnceFP(sc, prefix, b.fps, false)
+		x := Execute(sc, prefix, b.fps, false)
 		if !mine {
 			return x
 		}
 		execs++
 		res.Evaluations++
 		us.Evaluations++
-		for _, r := range x.Races {
-			raceNames[r.Names[0]], raceNames[r.Names[1]] = true, true
+		for _, n := range x.RaceNames {
+			raceNames[n] = true
 		}
 		newNodes := int64(len(x.Points) - len(prefix) + 1)
 		if newNodes < 1 {
@@ -368,22 +495,17 @@ func exploreS1(ctx *Ctx, sc *Scenario, cfg SConfig) []string {
 		if len(x.Points) > us.MaxDepth {
 			us.MaxDepth = len(x.Points)
 		}
-		fs := StandardFindings(sc, x)
-		obs, nontrivial := "", false
-		if x.Diverged == "" {
-			var more []*Finding
-			obs, nontrivial, more = sc.Check(x)
-			fs = append(fs, more...)
-		}
+		fs := x.Findings
+		obs, nontrivial := x.Obs, x.NonTrivial
 		if execs%512 == 1 && x.Diverged == "" {
 			// determinism audit: the same choices must pass through the same states and give the
 			// same observation
-			xr := RunOnceFP(sc, x.Choices(), x.Fingerprints(), false)
+			xr := Execute(sc, x.Choices(), x.Fingerprints(), false)
 			us.Audits++
 			if xr.Diverged != "" {
 				fs = append(fs, &Finding{Sig: "BROKEN:nondeterministic", Msg: "re-running an execution from its own choices: " + xr.Diverged})
-			} else if obs2, _, _ := sc.Check(xr); obs2 != obs {
-				fs = append(fs, &Finding{Sig: "BROKEN:nondeterministic", Msg: "re-running an execution from its own choices gave another observation: " + trunc(obs, 200) + " / " + trunc(obs2, 200)})
+			} else if xr.Obs != obs {
+				fs = append(fs, &Finding{Sig: "BROKEN:nondeterministic", Msg: "re-running an execution from its own choices gave another observation: " + trunc(obs, 200) + " / " + trunc(xr.Obs, 200)})
 			}
 		}
 		h := Hash(sc.Name, obs)
@@ -394,16 +516,15 @@ func exploreS1(ctx *Ctx, sc *Scenario, cfg SConfig) []string {
 		}
 		if len(fs) > 0 {
 			// re-run with tracing: signatures carry code sites (function names)
-			xt := RunOnceFP(sc, x.Choices(), x.Fingerprints(), true)
-			fs = StandardFindings(sc, xt)
-			if xt.Diverged == "" {
-				_, _, more := sc.Check(xt)
-				fs = append(fs, more...)
+			xt := Execute(sc, x.Choices(), x.Fingerprints(), true)
+			broken := fs
+			fs = xt.Findings
+			for _, f := range broken {
+				if strings.HasPrefix(f.Sig, "BROKEN:nondeterministic") {
+					fs = append(fs, f)
+				}
 			}
-			tr := xt.DumpSchedule()
-			if len(tr) > 400 {
-				tr = tr[:400]
-			}
+			tr := xt.Trace
 			for _, f := range fs {
 				f.Unit = sc.Name
 				f.Replay = Replay{Unit: sc.Name, Choices: x.Choices(), FPs: x.Fingerprints(), Trace: tr, YieldAt: yieldNames(sc)}
@@ -416,7 +537,7 @@ func exploreS1(ctx *Ctx, sc *Scenario, cfg SConfig) []string {
 	}
 
 	// children enumerates the alternative prefixes branching off execution x beyond len(prefix).
-	children := func(x *vrt.Exec, prefix []int) []branch {
+	children := func(x *Run, prefix []int) []branch {
 		var out []branch
 		pre := 0
 		for i := 0; i < len(x.Points); i++ {
